@@ -8,6 +8,10 @@ Decides the structural clauses:
          directed-rounding semantics; mode dispatch in round_int is exhaustive
   B-R3t  every operator method of mpf and fadd..fdiv/fneg thread the context's
          (prec, rounding) into the kernels; mpf() construction rounds
+  B-R3c  every conversion of an inexact source (string, rational, Decimal,
+         man/exp pair) in the mp context layer supplies the rounding mode to
+         the converter (the converters default to round-down); mpf() accepts
+         every source type the property names
   B-R4i  the sticky-bit idioms that make a single rounding correct are
          present and well-formed (division / integer division: remainder ->
          extra low bit; sqrt: remainder -> extra low bit, floor shortcut only
@@ -45,6 +49,7 @@ def run(run, ix, tier):
     run.rule('B-R1', floor=14)
     run.rule('B-R3', floor=18)
     run.rule('B-R3t', floor=25)
+    run.rule('B-R3c', floor=8)
     run.rule('B-R4i', floor=5)
     run.rule('B-R4m', floor=1)
     kernel_obligations(run, ix, KERNELS, single=False, rule_single=None)
@@ -76,8 +81,66 @@ def run(run, ix, tier):
     check_keyword_independence(run, ix, 'B-R3t')
     from .kernel_rules import check_exact_operand_conversion
     check_exact_operand_conversion(run, ix, 'B-R3t')
+    check_conversion_rounding(run, ix)
     check_sticky_idioms(run, ix)
     check_tie_masks(run, ix)
+
+
+CONVERTERS = ('from_str', 'from_rational', 'from_Decimal', 'from_man_exp')
+# source types the property names for mpf(): how the dispatch in mpf_convert_arg tests for them
+SOURCE_TESTS = {'int': ('int_types',), 'float': ('float',), 'str': ('basestring', 'str'),
+                'mpf': ("'_mpf_'",), 'Fraction': ('Rational',), 'mpq': ('mpq',)}
+
+
+def check_conversion_rounding(run, ix):
+    """The converters of inexact sources take `rnd=round_fast` (= round-down) as a DEFAULT: a
+    call that omits the mode truncates toward zero whatever the context's rounding is.  Every
+    call of such a converter in the mp context layer must supply the mode: positionally, by
+    keyword, or by unpacking the context's `_prec_rounding` pair."""
+    sig = {}
+    for name in CONVERTERS:
+        f = ix.func(LIBMPF, name)
+        if 'rnd' not in f.params:
+            raise AnalysisError('%s has no rnd parameter' % name)
+        sig[name] = f.params.index('rnd')
+    n = 0
+    for rel in (CTXPY, 'mpmath/ctx_mp.py'):
+        m = ix.module(rel)
+        for f in m.funcs.values():
+            for x in _walk_own(f.node):
+                if not (isinstance(x, ast.Call) and isinstance(x.func, ast.Name) and x.func.id in sig):
+                    continue
+                k = sig[x.func.id]
+                if x.func.id == 'from_man_exp' and len(x.args) <= 2 and not x.keywords:
+                    continue        # exact: no precision given, nothing is rounded
+                n += 1
+                star = [a for a in x.args if isinstance(a, ast.Starred)]
+                ok = len(x.args) > k and not star
+                ok = ok or any(kw.arg == 'rnd' for kw in x.keywords)
+                ok = ok or any(norm(a.value).endswith('_prec_rounding') for a in star)
+                if ok:
+                    run.ok('B-R3c', '%s: %s' % (f.qualname, norm(x)) if n < 12 else None)
+                else:
+                    st = x
+                    while not isinstance(st, ast.stmt):
+                        st = st._parent
+                    run.fail(Finding('B-R3c', rel, f.qualname, norm(st),
+                                     '`%s` is called without a rounding mode: the converter falls '
+                                     'back to round-down, so the value is truncated toward zero '
+                                     'instead of rounded in the context\'s mode' % norm(x),
+                                     line=x.lineno))
+    if n < 7:
+        raise AnalysisError('only %d inexact-source conversions found in the mp context layer' % n)
+    # type coverage of mpf(x)
+    f = ix.func(CTXPY, '_mpf.mpf_convert_arg')
+    tests = ' '.join(norm(st.test) for st in _walk_own(f.node) if isinstance(st, ast.If))
+    for kind, pats in sorted(SOURCE_TESTS.items()):
+        if any(p in tests for p in pats):
+            run.ok('B-R3c', 'mpf() dispatch covers %s' % kind)
+        else:
+            run.fail(Finding('B-R3c', CTXPY, f.qualname, 'dispatch on %s' % kind,
+                             'mpf(x) has no branch for a %s operand (TypeError instead of a '
+                             'correctly rounded value)' % kind, line=f.lineno))
 
 
 def check_round_int(run, ix):
